@@ -1305,6 +1305,18 @@ func (l *Loop) decode(d *decoder) {
 	l.depth = int(d.readUint32())
 	l.bound.decode(d)
 	l.subregionBound = ExpandForSubregions(l.bound)
+	if nvertices == 0 {
+		// A loop without vertices has no edges and contains no points, whatever
+		// bound the encoding claims; most methods assume at least one vertex.
+		// Normalize it to the empty loop, as the compressed decoder does
+		// (see initBound).
+		if d.err == nil {
+			depth := l.depth
+			*l = *EmptyLoop()
+			l.depth = depth
+		}
+		return
+	}
 
 	l.index.Add(l)
 }
